@@ -6,6 +6,8 @@
 -/
 import Mathlib.Analysis.SpecialFunctions.Trigonometric.Deriv
 import Mathlib.Analysis.Calculus.Deriv.MeanValue
+import Mathlib.Data.Finset.Max
+import Mathlib.Data.List.Basic
 
 open Real Set
 
@@ -70,5 +72,41 @@ theorem between (A B s u t : ℝ) (hs : s ≤ t) (hu : t ≤ u)
       rw [interior_Icc] at hx
       rw [deriv_f]; exact (hn x hx.1 hx.2).le
     exact ⟨le_trans (min_le_right _ _) (anti mt mu hu), le_trans (anti ms mt hs) (le_max_left _ _)⟩
+
+/-- a finite list of parameters that contains both ends of the sweep and every critical parameter
+    strictly inside it brackets the coordinate: each value on the sweep lies between the values at
+    two listed parameters of the sweep -/
+theorem between_list (A B t0 t1 t : ℝ) (E : List ℝ) (h0 : t0 ∈ E) (h1 : t1 ∈ E)
+    (ht0 : t0 ≤ t) (ht1 : t ≤ t1)
+    (hE : ∀ x, t0 < x → x < t1 → g A B x = 0 → x ∈ E) :
+    ∃ e1 ∈ E, ∃ e2 ∈ E, (t0 ≤ e1 ∧ e1 ≤ t1) ∧ (t0 ≤ e2 ∧ e2 ≤ t1) ∧
+      f A B e1 ≤ f A B t ∧ f A B t ≤ f A B e2 := by
+  classical
+  let L := (E.filter (fun e => decide (e ≤ t))).toFinset
+  let U := (E.filter (fun e => decide (t ≤ e))).toFinset
+  have memL : ∀ e, e ∈ L ↔ e ∈ E ∧ e ≤ t := by intro e; simp [L]
+  have memU : ∀ e, e ∈ U ↔ e ∈ E ∧ t ≤ e := by intro e; simp [U]
+  have hL : L.Nonempty := ⟨t0, (memL t0).2 ⟨h0, ht0⟩⟩
+  have hU : U.Nonempty := ⟨t1, (memU t1).2 ⟨h1, ht1⟩⟩
+  obtain ⟨sE, st⟩ := (memL _).1 (L.max'_mem hL)
+  obtain ⟨uE, ut⟩ := (memU _).1 (U.min'_mem hU)
+  set s := L.max' hL with hsdef
+  set u := U.min' hU with hudef
+  have s0 : t0 ≤ s := L.le_max' t0 ((memL t0).2 ⟨h0, ht0⟩)
+  have u1 : u ≤ t1 := U.min'_le t1 ((memU t1).2 ⟨h1, ht1⟩)
+  have hne : ∀ x, s < x → x < u → g A B x ≠ 0 := by
+    intro x hx1 hx2 hz
+    have xE : x ∈ E := hE x (lt_of_le_of_lt s0 hx1) (lt_of_lt_of_le hx2 u1) hz
+    rcases le_total x t with h | h
+    · exact absurd (L.le_max' x ((memL x).2 ⟨xE, h⟩)) (not_le.mpr hx1)
+    · exact absurd (U.min'_le x ((memU x).2 ⟨xE, h⟩)) (not_le.mpr hx2)
+  obtain ⟨b1, b2⟩ := between A B s u t st ut hne
+  have ss : t0 ≤ s ∧ s ≤ t1 := ⟨s0, le_trans st ht1⟩
+  have uu : t0 ≤ u ∧ u ≤ t1 := ⟨le_trans ht0 ut, u1⟩
+  rcases min_le_iff.1 b1 with l1 | l1 <;> rcases le_max_iff.1 b2 with l2 | l2
+  · exact ⟨s, sE, s, sE, ss, ss, l1, l2⟩
+  · exact ⟨s, sE, u, uE, ss, uu, l1, l2⟩
+  · exact ⟨u, uE, s, sE, uu, ss, l1, l2⟩
+  · exact ⟨u, uE, u, uE, uu, uu, l1, l2⟩
 
 end Svg.ArcMono
